@@ -442,6 +442,14 @@ func (b *builder) processFunction(root *functionNode, props *builderProp) (query
 		if arg3, err = b.processNode(root.Args[2], flagsEnum.None, props); err != nil {
 			return nil, err
 		}
+		// As for matches(): test a constant regular expression before.
+		if q, ok := arg2.(*constantQuery); ok {
+			if pattern, ok := q.Val.(string); ok {
+				if _, err = getRegexp(pattern); err != nil {
+					return nil, fmt.Errorf("replace() got error. %v", err)
+				}
+			}
+		}
 		qyOutput = &functionQuery{Func: replaceFunc(arg1, arg2, arg3)}
 	case "translate":
 		//translate( string , string, string )
